@@ -10,6 +10,12 @@
    without #removedType), enum case add / remove / swap / rename, raw type change, kind changes.
    First `old` is derived from the base schema (MutateOld), then `new` from `old` (MutateNew);
    TLC enumerates every pair reachable within MaxMut mutations.
+   Chains of two successive updates v1 -> v2 -> v3 (Chain = TRUE): `first` is the version under which
+   the first instances were stored; Advance submits old -> new (the model follows only updates it judges
+   Usable -- the others must be rejected, which the pair enumeration checks), `new` becomes the deployed
+   version, instances of it are stored too, and `new` is mutated again -- including re-declaring a
+   type that an earlier step removed with #removedType. After every accepted step every stored value
+   (of every generation) must still be usable.
 
    Usable(old, new) is the judgement of the property: every value stored under `old` whose type
    still exists can be loaded under `new`, has every field `new` declares with the same type,
@@ -18,7 +24,8 @@
    Usable update may be rejected.  *)
 EXTENDS Naturals, Sequences, FiniteSets, TLC, Json
 CONSTANTS MaxMut,       \* total number of mutations applied to the base schema (old and new together)
-          MaxOldMut     \* how many of them may be spent on `old`
+          MaxOldMut,    \* how many of them may be spent on `old`
+          Chain         \* TRUE: enumerate chains of two successive updates
 
 DeclNames == {"S", "R", "E", "I", "I2", "T"}
 Absent == [kind |-> "absent", fields |-> << >>, confs |-> {}, cases |-> << >>, raw |-> "-"]
@@ -119,6 +126,15 @@ DeclMuts(sc) ==
                                IF sc.decls["S"].fields[i].n = "a" THEN [sc.decls["S"].fields[i] EXCEPT !.ty = "T"] ELSE sc.decls["S"].fields[i]]))}
         ELSE {})
 
+\* a type that an earlier version removed with #removedType is declared again (with another shape),
+\* the pragma stays: stored values of the old type would be read as the new one
+Redeclared(d) == CASE d = "R" -> [Absent EXCEPT !.kind = "resource", !.fields = <<F("note", "String", "let", "all")>>]
+                   [] d = "E" -> [Absent EXCEPT !.kind = "enum", !.cases = <<"w">>, !.raw = "UInt8"]
+                   [] d = "T" -> [Absent EXCEPT !.kind = "struct", !.fields = <<F("b", "String", "let", "all")>>]
+                   [] OTHER   -> [Absent EXCEPT !.kind = "sinterface"]
+RedeclareMuts(sc) ==
+  {M(<<"redeclareRemoved", d>>, WithDecl(sc, d, Redeclared(d))) : d \in {x \in sc.removed : ~Present(sc, x)}}
+
 EnumMuts(sc) ==
   IF sc.decls["E"].kind # "enum" THEN {} ELSE
   LET cs == sc.decls["E"].cases  W(c) == [sc EXCEPT !.decls["E"].cases = c] IN
@@ -143,8 +159,11 @@ KindMuts(sc) ==
 
 Muts(sc) == UNION {FieldMuts(sc, d) : d \in {x \in {"S", "R", "T"} : Composite(sc, x)}}
             \cup ContractFieldMuts(sc) \cup ConfMuts(sc) \cup DeclMuts(sc) \cup EnumMuts(sc) \cup KindMuts(sc)
+            \cup RedeclareMuts(sc)
 
 \* ---------------------------------------------------------------- the judgement of the property
+\* names removed with #removedType and really gone (not declared again)
+Gone(sc) == {d \in sc.removed : ~Present(sc, d)}
 \* a value of old declaration od read under new declaration nd
 DeclUsable(od, nd, removed) ==
   /\ nd.kind = od.kind
@@ -153,12 +172,13 @@ DeclUsable(od, nd, removed) ==
   /\ (od.confs \ removed) \subseteq nd.confs          \* interfaces that still exist
   /\ od.kind = "enum" => /\ nd.raw = od.raw /\ Len(nd.cases) >= Len(od.cases)
                          /\ \A i \in 1..Len(od.cases) : nd.cases[i] = od.cases[i]
-\* values of a type removed with #removedType are not meant to be loadable: not quantified over
-Quantified(old, new, d) == Present(old, d) /\ d \notin new.removed
+\* values of a type removed with #removedType are not meant to be loadable: not quantified over --
+\* unless the new version declares the name again: then they load as that declaration
+Quantified(old, new, d) == Present(old, d) /\ (d \notin new.removed \/ Present(new, d))
 RECURSIVE TypeUsable(_, _, _, _)
 TypeUsable(old, new, d, fuel) ==
   /\ Present(new, d)
-  /\ DeclUsable(old.decls[d], new.decls[d], new.removed)
+  /\ DeclUsable(old.decls[d], new.decls[d], Gone(new))
   /\ fuel > 0
   /\ \A i \in 1..Len(new.decls[d].fields) :
         LET m == Mention(new.decls[d].fields[i].ty) IN
@@ -177,22 +197,32 @@ Why(old, new) ==
            ~\E j \in 1..Len(old.cfields) : old.cfields[j].n = new.cfields[k].n /\ SameType(old.cfields[j].ty, new.cfields[k].ty)}}
 
 \* ---------------------------------------------------------------- the enumeration as a state machine
-VARIABLES old, new, ms, nold
-vars == <<old, new, ms, nold>>
-Init == old = Base /\ new = Base /\ ms = << >> /\ nold = 0
+VARIABLES first,    \* the version under which the first generation of instances was stored
+          old,      \* the deployed version (instances of it are stored as well once it differs from `first`)
+          new,      \* the proposed update
+          ms, nold, nupd
+vars == <<first, old, new, ms, nold, nupd>>
+NMut == Len(ms) - nupd
+Init == first = Base /\ old = Base /\ new = Base /\ ms = << >> /\ nold = 0 /\ nupd = 0
 \* derive the deployed version from the base (only while nothing was done to `new`)
 MutateOld == /\ Len(ms) < MaxMut /\ nold < MaxOldMut /\ nold = Len(ms)
-             /\ \E m \in Muts(old) : old' = m.sc /\ new' = m.sc /\ ms' = Append(ms, <<"old">> \o m.m)
-             /\ nold' = nold + 1
-MutateNew == /\ Len(ms) < MaxMut
+             /\ \E m \in Muts(old) : old' = m.sc /\ new' = m.sc /\ first' = m.sc /\ ms' = Append(ms, <<"old">> \o m.m)
+             /\ nold' = nold + 1 /\ UNCHANGED nupd
+MutateNew == /\ NMut < MaxMut
              /\ \E m \in Muts(new) : new' = m.sc /\ ms' = Append(ms, <<"new">> \o m.m)
-             /\ UNCHANGED <<old, nold>>
+             /\ UNCHANGED <<first, old, nold, nupd>>
+\* the update old -> new is submitted and (being Usable) may be accepted: new is deployed, the chain goes on
+Advance == /\ Chain /\ nupd = 0 /\ new # old /\ NMut < MaxMut /\ Usable(old, new)
+           /\ old' = new /\ nupd' = 1 /\ ms' = Append(ms, <<"update">>)
+           /\ UNCHANGED <<first, new, nold>>
 \* the reverse direction of a mutation: the mutated schema is deployed, the update goes back to the base
 Revert == /\ Len(ms) = 1 /\ nold = 1 /\ new = old
-          /\ new' = Base /\ ms' = Append(ms, <<"new", "revertToBase">>) /\ UNCHANGED <<old, nold>>
-Next == MutateOld \/ MutateNew \/ Revert
+          /\ new' = Base /\ ms' = Append(ms, <<"new", "revertToBase">>) /\ UNCHANGED <<first, old, nold, nupd>>
+Next == MutateOld \/ MutateNew \/ Revert \/ Advance
 Spec == Init /\ [][Next]_vars
-view == <<old, new>>
+view == <<first, old, new>>
+\* every stored generation is usable under the proposed version
+UsableAll == Usable(first, new) /\ Usable(old, new)
 
 \* ---------------------------------------------------------------- properties of the judgement
 WellFormed(sc) ==
@@ -200,10 +230,15 @@ WellFormed(sc) ==
   /\ \A d \in DeclNames : \A i \in 1..Len(sc.decls[d].fields) :
         LET m == Mention(sc.decls[d].fields[i].ty) IN m # "-" => Present(sc, m)
   /\ \A i \in 1..Len(sc.cfields) : LET m == Mention(sc.cfields[i].ty) IN m # "-" => Present(sc, m)
-SchemasWellFormed == WellFormed(old) /\ WellFormed(new)
+SchemasWellFormed == WellFormed(first) /\ WellFormed(old) /\ WellFormed(new)
 UsableReflexive == Usable(old, old) /\ Usable(new, new)
 \* what the probe of the design round established, as lemmas about the judgement
 Lemmas ==
+  \* a re-declared removed type never keeps the values stored under the version that still had it
+  /\ (nupd = 1 /\ Len(ms) >= 3 /\ ms[Len(ms)][2] = "redeclareRemoved" /\ Present(first, ms[Len(ms)][3])
+        /\ ms[Len(ms)][3] \in Stored) => ~Usable(first, new)
+  \* the deployed version of a chain was reached by an update the model judges Usable
+  /\ nupd = 1 => Usable(first, old)
   /\ (old = Base /\ Len(ms) = 1) =>
        LET m == ms[1][2] IN
        /\ m \in {"addField", "retypeField", "renameField", "removeConformance", "swapConformance", "removeDecl",
@@ -214,5 +249,6 @@ Lemmas ==
                  "removeDeclWithPragma", "removeContractField"} => Usable(old, new)
        /\ m = "enumAddCase" => (Usable(old, new) <=> ms[1][3] = "end")
 
-Emit == PrintT(ToJson([old |-> old, new |-> new, ms |-> ms, usable |-> Usable(old, new), why |-> Why(old, new)]))
+Emit == PrintT(ToJson([first |-> first, old |-> old, new |-> new, ms |-> ms, chain |-> nupd,
+                        usable |-> UsableAll, why |-> Why(first, new) \cup Why(old, new)]))
 =============================================================================
